@@ -125,6 +125,9 @@ func runPAN(c *Case, keepStates bool) (r *panRun, early *Verdict) {
 // service-group that exists on the device under the same name are sent with
 // action=set, which adds to the member list instead of replacing it.
 func panIsF21(r *panRun) bool {
+	if panm.ReplaceServiceGroupMembers {
+		return false
+	}
 	for _, c := range r.cmds {
 		if c.Action == "set" && strings.HasSuffix(c.XPath, "/members") && strings.Contains(c.XPath, "/service-group/entry[@name='") {
 			i := strings.Index(c.XPath, "/service-group/entry[@name='") + len("/service-group/entry[@name='")
@@ -139,6 +142,30 @@ func panIsF21(r *panRun) bool {
 		}
 	}
 	return false
+}
+
+const sigF21 = "pan:F21-service-group-members-set-merges-instead-of-replacing"
+
+// panF21 keeps the signature of known finding F21 only for failures that
+// F21 fully explains: the case is judged once more on a device model in
+// which "set .../service-group/.../members" replaces the list (what the
+// right action would do). If the case still fails there, the failure is
+// independent of F21 and is reported under its own signature.
+func panF21(oracle func(*Case) Verdict) func(*Case) Verdict {
+	return func(c *Case) Verdict {
+		v := oracle(c)
+		if v.Status != Fail || v.Sig != sigF21 {
+			return v
+		}
+		panm.ReplaceServiceGroupMembers = true
+		v2 := oracle(c)
+		panm.ReplaceServiceGroupMembers = false
+		if v2.Status == Fail {
+			v2.Msg = "(fails also when service-group members are replaced, i.e. independent of known finding F21)\n" + v2.Msg
+			return v2
+		}
+		return v
+	}
 }
 
 func panClasses(r *panRun) []string {
@@ -373,9 +400,9 @@ func oracleC07pan(c *Case) Verdict {
 }
 
 func init() {
-	register("C03", "panos", oracleC03pan)
-	register("C08", "panos", oracleC08pan)
-	register("C10", "panos", oracleC10pan)
+	register("C03", "panos", panF21(oracleC03pan))
+	register("C08", "panos", panF21(oracleC08pan))
+	register("C10", "panos", panF21(oracleC10pan))
 	register("C07", "panos", oracleC07pan)
 	register("C16", "panos", oracleC16)
 }
